@@ -476,6 +476,35 @@ class MainModel:
         return out
 
 
+    def final_block(self):
+        """the IfStmt after the loop that writes the final record, found by what it does (it appends to the results file), with the
+        conjuncts of its condition resolved through const bool locals: -> (IfStmt, [conjunct nodes])"""
+        loop = self.main_loop()
+        loop_ids = {y["id"] for y in A.walk(loop)}
+        cands = [x for x in A.walk(self.fn["body"]) if x["k"] == "IfStmt" and x["line"] > loop.get("eline", loop["line"]) and x["id"] not in loop_ids and
+                 any((y.get("callee") or "").startswith("vfps::HDF5File::append") for y in A.walk(x["then"]))]
+        top = [x for x in cands if not any(x["id"] in {y["id"] for y in A.walk(o["then"])} for o in cands if o is not x)]
+        A.require(len(top) >= 1, "main: final-record block not found")
+        fb = top[0]
+        named = {}
+        for st in A.walk(self.fn["body"]):
+            if st["k"] == "DeclStmt":
+                for d in st["decls"]:
+                    if d.get("k") == "VarDecl" and d.get("is_const") and (d.get("ctype") or "").replace("const ", "").strip() == "bool" and isinstance(d.get("init"), dict):
+                        named[d["decl"]] = d["init"]
+        conj = []
+
+        def split(n, depth=0):
+            n = A.strip(n)
+            if n.get("k") == "BinaryOperator" and n.get("op") == "&&":
+                split(n["c"][0], depth); split(n["c"][1], depth)
+            elif n.get("k") == "DeclRefExpr" and n.get("decl") in named and depth < 4:
+                split(named[n["decl"]], depth + 1)
+            else:
+                conj.append(n)
+        split(fb["cond"])
+        return fb, conj
+
     def output_block(self):
         """the IfStmt of the loop body that holds the per-record output (the one that appends to the results file)"""
         loop = self.main_loop()
